@@ -132,7 +132,7 @@ PROPS = {
                 "failed half way / a truncated decode of the same bytes, compared with a fresh receiver and with the model.",
     },
     "C16": {
-        "theorems": ["FinProto.Obl.C16_readString_copying", "FinProto.Obl.C16_readFixed_copying", "FinProto.Obl.C16_readBasic_copying", "FinProto.Obl.C16_no_unrecognised_statement",
+        "theorems": ["FinProto.Obl.C16_readString_copying", "FinProto.Obl.C16_readFixed_copying", "FinProto.Obl.C16_readBasic_copying", "FinProto.Obl.C16_no_unrecognised_statement", "FinProto.Obl.C16_readers_copying", "FinProto.Obl.C16_readers_immune",
                      "FinProto.Alias.noalias_return", "FinProto.Alias.decode_immune", "FinProto.Alias.return_observable", "FinProto.Alias.view_aliases",
                      "FinProto.Alias.encode_immune", "FinProto.Alias.encode_immune_contents"],
         "aspects": {**ENC_ALL},
